@@ -2,6 +2,7 @@ SPECIFICATION MCLiveSpec
 CONSTANTS
   MC_Ns = {1, 2, 3}
   MC_Topos <- ToposSmall
+  MC_MaxFail = 1
   Defect_HandoffLost = FALSE
   YieldTransparent = FALSE
   KeepHist = FALSE
@@ -11,6 +12,7 @@ INVARIANTS
   C13_HandoffShape
   C13_NoDrop
   C13_FIFO
+  C13_ErrIffFails
   C13_QueuesInOrder
   C13_ExactlyOnce
 PROPERTIES
